@@ -210,6 +210,10 @@ def extract_model(pid, extract_v, driver_ml, exe_name=None):
     for f in sorted(os.listdir(os.path.join(COQ, "theories"))):
         if f.endswith(".v") and not f.startswith("Properties_") and not f.endswith("Proofs.v"):
             h.update(open(os.path.join(COQ, "theories", f), "rb").read())
+    gd = os.path.join(COQ, "gen")
+    if os.path.isdir(gd) and "SharkGen" in open(ev).read():      # extraction files that import generated (translator) modules
+        for f in sorted(os.listdir(gd)):
+            if f.endswith(".v"): h.update(open(os.path.join(gd, f), "rb").read())
     h.update(open(ev, "rb").read()); h.update(open(dv, "rb").read())
     stamp = os.path.join(d, "stamp")
     if os.path.exists(exe) and os.path.exists(stamp) and open(stamp).read() == h.hexdigest():
@@ -231,6 +235,7 @@ def extract_model(pid, extract_v, driver_ml, exe_name=None):
     mls = sorted(f for f in os.listdir(d) if f.endswith(".ml"))
     mlis = sorted(f for f in os.listdir(d) if f.endswith(".mli"))
     shutil.copy(dv, os.path.join(d, "driver_main.ml"))
+    if os.path.exists(exe): os.remove(exe)          # never keep a stale executable when the compile below fails
     sh(["ocamlfind", "ocamlopt", "-O3", "-w", "-a", "-package", "str", "-linkpkg"] + mlis + mls + ["driver_main.ml", "-o", exe],
        cwd=d, timeout=600, check=False)
     if not os.path.exists(exe):
